@@ -21,6 +21,7 @@
     * `entry_honoured_example` — the same source under the repaired pipeline starts at the label.
 -/
 import BMV.Proofs.Basm
+import BMV.Proofs.BasmSem
 namespace BMV.Props.C05
 open BMV BMV.Bits BMV.Basm
 
@@ -68,6 +69,75 @@ theorem opcode_index_stable (rsize : Nat) (rs : List RLine) (cp : CP) (h : mkCP 
     cp.arch.ops = opsOf rs ∧ (opsOf rs)[getId (w.take cp.arch.opBits)]? = some r.op :=
   opcode_index_aux h hr hw
 
+/-! ### meaning: the reference interpreter and the simulator in lock step -/
+
+/-- what is observable of a processor: where it is, its registers, its output ports -/
+structure ObsEq (a : Arch) (ls : List Line) (r : RefState) (vm : VmState) : Prop where
+  pc : vm.pc = addr ls r.pos
+  regs : ∀ k, k < 2 ^ a.r → vm.regs[k]? = some (r.regs k)
+  outs : ∀ k, k < a.m → vm.outputs[k]? = some (r.outputs k)
+
+/-- THE FULL STATEMENT (C05, per processor): for every accepted source, every processor `i`, the
+    section `sec` its `cpdef` names: whatever the reference interpreter does on `sec`'s text under
+    an environment stream, the assembled machine's processor does — same program counter, same
+    registers, same outputs, after every tick.  (Inter-processor composition through bonds is
+    C02 / C04.) -/
+def C05_full (fix : Bool) : Prop :=
+  ∀ (src : Source) (bm : BM), assemble src fix = .ok bm →
+    ∀ (i : Nat) (c : CpDef) (cp : CP), src.cps[i]? = some c → bm.cps[i]? = some cp →
+      ∃ sec ∈ src.sections, sec.name = c.romcode ∧
+        ∀ (env : Nat → Env) (t : Nat) (r : RefState), refRun (SecCtx.of src sec) env t = some r →
+          ∃ vm, isaRun cp.arch cp.prog env (t + (if fix && !entryFirst sec.lines then 1 else 0)) = some vm ∧
+            ObsEq cp.arch sec.lines r vm
+
+/-- the real instructions of a section are non-blocking (no i2rw / r2owa, no `mov` from / to a
+    port under `iomode:sync`) -/
+def NonBlocking (src : Source) (sec : Section) : Prop :=
+  ∀ rs, prepSection false src.iomode sec = .ok rs → ∀ r ∈ rs, r.op ≠ "i2rw" ∧ r.op ≠ "r2owa"
+
+/-- MATCHER EFFECT: a source line, the real instruction `matchLine` chose for it (for `mov`:
+    rset / cpy / i2r / r2o by operand kinds and iomode), its assembled word: one `Isa.exec` of the
+    word does to the simulator state exactly what the reference interpreter does to the reference
+    state for the source line — including where execution continues (`A` = position ↦ address). -/
+theorem mov_matcher_effect (a : Arch) (c : SecCtx) (e : Env) (A : Nat → Nat) (plen : Nat) (l : Line) (op : String)
+    (args : List Arg) (tbl : List (String × Nat)) (w : Bits) (r r' : RefState) (vm : VmState)
+    (hm : matchLine c.mode l = some (op, args))
+    (hasync : op ≠ "i2rw" ∧ op ≠ "r2owa")
+    (hasm : Encode.asm a ⟨op, args.map (resolveArg tbl)⟩ = .ok w)
+    (hmode : a.mode = .ha) (hrs : a.rsize = c.rsize)
+    (hsim : Sim a e A r vm)
+    (hnext : A (skip c.lines (r.pos + 1)) = vm.pc + 1)
+    (hlab : ∀ t p v, labelPos c.lines t = some p → lookup tbl t = some v → v = A p ∧ v < plen)
+    (hex : execLine c e l r = some r') :
+    ∃ vm', Isa.exec a plen op (w.drop a.opBits) vm = some vm' ∧ Sim a e A r' vm' ∧ PosNext c r r' :=
+  exec_matches hm hasync hasm hmode hrs hsim hnext hlab hex
+
+/-- LOCK STEP, one tick, on the ROM the unchanged pipeline assembles for a section -/
+theorem step_correct (c : SecCtx) (rs : List RLine) (a : Arch) (ws : List Bits) (e : Env) (r r' : RefState) (vm : VmState)
+    (hA : Assembled c rs a ws) (hsim : Sim a e (addr c.lines) r vm) (hpos : PosOk c.lines r.pos)
+    (hex : refStep c e r = some r') :
+    ∃ vm', Isa.step a ws vm = some vm' ∧ Sim a e (addr c.lines) r' vm' ∧ PosOk c.lines r'.pos :=
+  step_correct_aux hA hsim hpos hex
+
+/-- AN ASSEMBLED PROGRAM MEANS WHAT ITS SOURCE SAYS — PARTIAL.  `C05_full false` restricted by two
+    hypotheses: `entryFirst` (the entry label is on the first instruction of the section: without
+    it the statement is false on the unchanged tree, see `entry_ignored`) and `NonBlocking` (the
+    blocking i2rw / r2owa handshakes are not covered by the proof; they are covered by the per-tick
+    tie of tools/props/c05.py).  Everything else is as in the full statement: every source of the
+    subset, every register size, every environment stream, every number of ticks. -/
+theorem assemble_correct_partial (src : Source) (bm : BM) (h : assemble src false = .ok bm)
+    (i : Nat) (c : CpDef) (cp : CP) (hc : src.cps[i]? = some c) (hcp : bm.cps[i]? = some cp) :
+    ∃ sec ∈ src.sections, sec.name = c.romcode ∧
+      (entryFirst sec.lines = true → NonBlocking src sec →
+        ∀ (env : Nat → Env) (t : Nat) (r : RefState), refRun (SecCtx.of src sec) env t = some r →
+          ∃ vm, isaRun cp.arch cp.prog env t = some vm ∧ ObsEq cp.arch sec.lines r vm) := by
+  obtain ⟨sec, hsec, hname, rs, hprep, hass⟩ := assembled_of_assemble h hc hcp
+  refine ⟨sec, hsec, hname, ?_⟩
+  intro hentry hnb env t r hr
+  have hA := hass (hnb rs hprep)
+  obtain ⟨vm, hvm, hst, _⟩ := run_correct_aux hA hentry env t r hr
+  exact ⟨vm, hvm, ⟨hst.pc, fun k hk => hst.regs.get hk, fun k hk => hst.outs.get hk⟩⟩
+
 /-! ### the `entry` directive on the unchanged tree -/
 
 /-- the minimal source of the finding: an instruction placed before the entry label -/
@@ -97,5 +167,32 @@ theorem entry_ignored :
 theorem entry_honoured_example :
     romOf (assemble entrySrc true) = ["01010000000", "11000000101", "00000000000", "10000000000", "01010000000"] := by
   decide
+
+/-! ### non-vacuity -/
+
+/-- a source meeting every hypothesis of `assemble_correct_partial`, with labels, both jump kinds,
+    `mov` in three of its meanings, an input and an output -/
+def demoSrc : Source :=
+  { rsize := some 8, iomode := some .async,
+    sections := [{ name := "prog", lines :=
+      [ { op := "entry", args := [.sym "top"] },
+        { labels := ["top"], op := "mov", args := [.reg 1, .inp 0] },
+        { op := "jz", args := [.reg 1, .sym "top"] },
+        { labels := ["loop"], op := "add", args := [.reg 0, .reg 1] },
+        { op := "mov", args := [.out 0, .reg 0] },
+        { op := "dec", args := [.reg 1] },
+        { op := "jz", args := [.reg 1, .sym "top"] },
+        { op := "jmp", args := [.sym "loop"] } ] }],
+    cps := [{ name := "cpu", romcode := "prog" }] }
+
+def demoEnv : Nat → Env := fun t => { inputs := fun _ => if t < 3 then 0 else 3, inValid := fun _ => false, outRecv := fun _ => false }
+
+example : (assemble demoSrc false).toOption.isSome = true := by decide
+example : (demoSrc.sections.map fun s => entryFirst s.lines) = [true] := by decide
+example : (demoSrc.sections.map fun s => (match prepSection false demoSrc.iomode s with
+    | .ok rs => rs.all (fun r => r.op != "i2rw" && r.op != "r2owa") | .error _ => false)) = [true] := by decide
+-- the reference interpreter really runs (reads 0 three times, then 3; sums 3+2+1 into r0 / o0)
+example : ((refRun (SecCtx.of demoSrc (demoSrc.sections.headD default)) demoEnv 20).map fun r => (r.regs 0, r.outputs 0, r.pos)) =
+    some (6, 6, 1) := by decide
 
 end BMV.Props.C05
